@@ -175,6 +175,16 @@ def const_bool(e):
     return None
 
 
+def const_int(e):
+    """integer value of a constant expression, or None"""
+    import re as _re
+    e = strip(e)
+    if e[0] != 'const':
+        return None
+    m = _re.match(r'^(?:const )?(-?\d+)(?:_[iu](?:8|16|32|64|128|size))?$', e[1])
+    return int(m.group(1)) if m else None
+
+
 def sw_value(label):
     """(discr expr, value) of a switch edge, value int or ('not', (...))"""
     if label and label[0] == 'sw':
